@@ -164,8 +164,9 @@ def inject(p, cls, r):
         i = part[0]
         inside = ops[i]["comps"][0]
         outside = [c for c in comps if c not in ops[i]["comps"]]
-        later = [j for j in sidx if j > i and outside and outside[0] in ops[j]["comps"]]
-        if not outside or later:
+        # the destination must not be stratified at all: 1 destination compartment against >= 2 sources
+        outside = [c for c in outside if not any(c in ops[j]["comps"] for j in sidx)]
+        if not outside:
             return None
         ops.append({"op": "flow", "kind": "transition", "name": "uneq", "param": "1/2", "src": inside, "dst": outside[0]})
         return q, len(ops)
